@@ -482,7 +482,7 @@ func (t *protoTrace) post10(c *Ctx, kind string, ci, di int, p pre10State, r *pr
 		case "PP":
 			if r.err == "" {
 				if protoArg(toks, "pushonly") == "1" {
-					o10(c, "KNOWN[c10-stale-pushonly-not-refused] push-only PP by stale client c%d on d%d is answered ok (cp=%d,%d) instead of ErrEpochMismatch",
+					o10(c, "push-only PP by stale client c%d on d%d is answered ok (cp=%d,%d) instead of ErrEpochMismatch",
 						ci, di, r.cp.ServerSeq, r.cp.ClientSeq)
 				} else {
 					o10(c, "PP by stale client c%d on d%d is answered ok instead of ErrEpochMismatch", ci, di)
@@ -1314,7 +1314,7 @@ func cdocTrace(c *Ctx, seed int64, i int) {
 			if r.Intn(4) == 0 {
 				c.Count("cdoc:stale-pushonly-sync")
 				if err := x.cli.Sync(ctx, client.WithKey(x.doc.Key()).WithPushOnly()); err == nil {
-					o10(c, "KNOWN[c10-stale-pushonly-not-refused] cdoc: push-only sync of a stale client after compaction returned nil (want ErrEpochMismatch); local changes pending: %v",
+					o10(c, "cdoc: push-only sync of a stale client after compaction returned nil (want ErrEpochMismatch); local changes pending: %v",
 						x.doc.HasLocalChanges())
 				} else if converter.ErrorCodeOf(err) != "ErrEpochMismatch" {
 					o10(c, "cdoc: push-only sync of a stale client after compaction: %v", err)
